@@ -25,13 +25,13 @@ func init() { core.Register(c12{}) }
 func (c12) ID() string    { return "C12" }
 func (c12) Level() string { return "fault_enumeration" }
 func (c12) Rule() string {
-	return "flip cases: small pristine databases built deterministically (variants: plain 1 file; rotated 3 files with overwrites, tombstones and a committed batch; unsealed batch tail; un-adopted finished merge so that hint file, marker and rewritten files are read by Open; 34 KiB variant with a 2-chunk record, thorough only); EVERY single-bit flip of EVERY byte of EVERY file (data, hint, marker) is applied to a fresh copy, then Open, full dump (ListKeys, Get of every key ever written, Fold), Close. damage cases: larger databases (200 KiB..1 MiB, multi-block records) with random 1..64-byte overwrites, truncation to every length of the last two blocks and random lengths elsewhere, a block replaced by garbage or zeros, every bit of the length and type fields of seed-chosen chunk headers (block-filling chunks of multi-block records preferred); additionally, decided for the never-a-panic clause only: a block replaced by a copy of another block (intact chunks in the wrong place) and two files exchanged; the damaged file is also fed to the sequential reader directly. Oracle: a panic or process death is a violation; otherwise Open may fail, any Get/Fold may fail with an error other than key-not-found, or every key must map to its latest written value (deleted keys stay absent, no key that was never written appears); only when the damaged newest data file is byte for byte a possible torn-write image (truncation of that file, damage inside its last record, or a chunk of it whose header/declared length now reaches beyond the end of the file, which no reader can tell from the crash tail C03 requires recovery to accept) the mapping may instead be one of the prefix states S_j. Non-trivial: fault that hits a chunk header field or record header of a record that is live; distinct = (variant, file, byte, bit) resp. hash of the fault description"
+	return "flip cases: small pristine databases built deterministically (variants: plain 1 file; rotated 3 files with overwrites, tombstones and a committed batch; unsealed batch tail; un-adopted finished merge so that hint file, marker and rewritten files are read by Open; 34 KiB variant with a 2-chunk record, thorough only); EVERY single-bit flip of EVERY byte of EVERY file (data, hint, marker) is applied to a fresh copy, then Open, full dump (ListKeys, Get of every key ever written, Fold), Close. damage cases: larger databases (200 KiB..1 MiB, multi-block records) with random 1..64-byte overwrites, truncation to every length of the last two blocks and random lengths elsewhere, a block replaced by garbage or zeros, every bit of the length and type fields of seed-chosen chunk headers (block-filling chunks of multi-block records preferred), and live faults (overwrite; truncation under standard I/O) applied to the files of an OPEN database whose buffers were warmed by earlier reads, observed through Get/Fold on that handle; additionally, decided for the never-a-panic clause only: a block replaced by a copy of another block (intact chunks in the wrong place) and two files exchanged; the damaged file is also fed to the sequential reader directly. Oracle: a panic or process death is a violation; otherwise Open may fail, any Get/Fold may fail with an error other than key-not-found, or every key must map to its latest written value (deleted keys stay absent, no key that was never written appears); only when the damaged newest data file is byte for byte a possible torn-write image (truncation of that file, damage inside its last record, or a chunk of it whose header/declared length now reaches beyond the end of the file, which no reader can tell from the crash tail C03 requires recovery to accept) the mapping may instead be one of the prefix states S_j. Non-trivial: fault that hits a chunk header field or record header of a record that is live; distinct = (variant, file, byte, bit) resp. hash of the fault description"
 }
 func (c12) Assumptions() []string {
 	return []string{"torn-tail window as stated in the rule (narrowest oracle that does not contradict C03)", "CRC-32 collisions are not constructed"}
 }
 func (c12) Required() []string {
-	return []string{"bit_flips", "flips_data", "flips_hint", "flips_marker", "damage_faults", "outcome_open_error", "outcome_intact", "reader_runs"}
+	return []string{"bit_flips", "flips_data", "flips_hint", "flips_marker", "damage_faults", "outcome_open_error", "outcome_intact", "reader_runs", "live_faults"}
 }
 func (c12) Exhaustive(tier string) bool { return false }
 
@@ -628,6 +628,132 @@ func c12Damage(c core.Case, cc c12Case, w *core.Worker) core.Result {
 			res.Violate(fmt.Sprintf("%s: %s", desc, m), map[string]string{"class": "damage", "fault": strings.Fields(desc)[0], "outcome": "reader-panic"}, nil)
 		}
 		os.RemoveAll(cp)
+	}
+	// live faults: the damage happens while the database is open (the engine's cached sizes
+	// and pooled buffers then disagree with the file); every Get/Fold must still return the
+	// latest value or an error. Truncation is only applied under standard I/O (touching a
+	// mapping beyond a shrunken file is SIGBUS by the kernel's definition, not the engine's).
+	for fi := 0; fi < cc.NFaults/2; fi++ {
+		cp := w.Dir("live")
+		mon.CopyTree(root, cp)
+		var db *kv.DB
+		var err error
+		pv, _ := core.Safe(func() { db, err = kv.Open(cfg.Options(filepath.Join(cp, "db"))) })
+		if pv != nil || err != nil {
+			res.Violate(fmt.Sprintf("harness: pristine copy does not open: %v %v", pv, err), map[string]string{"class": "harness"}, nil)
+			return res
+		}
+		// warm the engine's pooled buffers with reads of other records
+		for k := range p.ever {
+			db.Get([]byte(k))
+		}
+		name := dfs[r.Intn(len(dfs))]
+		path := filepath.Join(cp, "db", name)
+		st, serr := os.Stat(path)
+		if serr != nil {
+			db.Close()
+			os.RemoveAll(cp)
+			continue
+		}
+		logical, _ := mon.ReadLogical(path, -1)
+		size := int64(len(logical))
+		if cfg.FileIO == 0 {
+			size = st.Size()
+		}
+		desc := ""
+		if size == 0 {
+			db.Close()
+			os.RemoveAll(cp)
+			continue
+		}
+		if cfg.FileIO == 0 && r.Chance(1, 2) {
+			L := int64(r.Intn(int(size)))
+			os.Truncate(path, L)
+			desc = fmt.Sprintf("live truncate %s %d->%d", name, size, L)
+		} else {
+			n := r.Range(1, 64)
+			off := int64(r.Intn(int(size)))
+			fh, _ := os.OpenFile(path, os.O_WRONLY, 0644)
+			fh.WriteAt(core.FillValue(r.U64()|1, n), off)
+			fh.Close()
+			desc = fmt.Sprintf("live overwrite %s [%d,+%d)", name, off, n)
+		}
+		d, pv, stk := core.DumpDB(db, p.ever)
+		res.Add("live_faults", 1)
+		if pv != nil {
+			res.Violate(fmt.Sprintf("%s: reading the open database panicked: %v", desc, pv), map[string]string{"class": "damage", "fault": "live", "outcome": "panic"}, stk)
+		} else {
+			for k := range p.ever {
+				want, has := p.final.M[k]
+				got, listed := d.Vals[k]
+				if _, errd := d.Errs[k]; errd {
+					res.Add("live_outcome_error", 1)
+					continue
+				}
+				if has && listed && !bytes.Equal(got, want) {
+					res.Violate(fmt.Sprintf("%s: Get(%q) on the open database returns %d bytes (h=%s) that are not its written value (%d bytes, h=%s)", desc, k, len(got), core.HashBytes(got)[:8], len(want), core.HashBytes(want)[:8]),
+						map[string]string{"class": "damage", "fault": "live", "outcome": "wrong-data"}, map[string]any{"config": cfg, "fault": desc})
+					break
+				}
+				if !has && listed {
+					res.Violate(fmt.Sprintf("%s: deleted key %q is served by the open database", desc, k), map[string]string{"class": "damage", "fault": "live", "outcome": "wrong-data"}, nil)
+					break
+				}
+			}
+		}
+		core.Safe(func() { db.Close() })
+		os.RemoveAll(cp)
+		if len(res.Violations) >= 6 {
+			return res
+		}
+	}
+	// twin faults: a database of uniformly sized records, so that every data file has the same
+	// chunk layout; a record is read from one file (which leaves that block in the engine's
+	// pooled buffer), then ANOTHER file is truncated below the twin record's offset while the
+	// database is open, and the twin is read: stale buffer contents must not be served.
+	if cfg.FileIO == 0 {
+		udir := w.Dir("uniform")
+		ucfg := cfg
+		ucfg.DataFileSize = 24 << 10
+		udb, uerr := kv.Open(ucfg.Options(filepath.Join(udir, "db")))
+		if uerr == nil {
+			nrec := 600
+			val := func(i int) []byte { return []byte(fmt.Sprintf("value-of-%05d-%s", i, strings.Repeat("v", 60))) }
+			for i := 0; i < nrec; i++ {
+				udb.Put([]byte(fmt.Sprintf("key-%05d", i)), val(i))
+			}
+			ufiles := core.DataFiles(filepath.Join(udir, "db"))
+			perFile := nrec / max(len(ufiles), 1)
+			for t := 0; t < 24 && len(ufiles) >= 3 && perFile > 20; t++ {
+				fa, fb := r.Intn(len(ufiles)-1), r.Intn(len(ufiles)-1)
+				if fa == fb {
+					continue
+				}
+				slot := r.Range(perFile/2, perFile-2)
+				ka, kbi := fa*perFile+slot, fb*perFile+slot
+				if _, err := udb.Get([]byte(fmt.Sprintf("key-%05d", ka))); err != nil {
+					continue
+				}
+				pathB := filepath.Join(udir, "db", ufiles[fb])
+				stB, _ := os.Stat(pathB)
+				if stB == nil || stB.Size() < 64 {
+					continue
+				}
+				orig, _ := os.ReadFile(pathB)
+				os.Truncate(pathB, int64(r.Range(1, int(stB.Size())/3)))
+				got, gerr := udb.Get([]byte(fmt.Sprintf("key-%05d", kbi)))
+				res.Add("live_twin_faults", 1)
+				if gerr == nil && !bytes.Equal(got, val(kbi)) {
+					res.Violate(fmt.Sprintf("live truncate of %s: Get(key-%05d) on the open database returns %q..., the value written for it is %q...", ufiles[fb], kbi, got[:min(len(got), 20)], val(kbi)[:20]),
+						map[string]string{"class": "damage", "fault": "live-twin", "outcome": "wrong-data"}, map[string]any{"config": ucfg, "read_before": fmt.Sprintf("key-%05d", ka)})
+				} else if gerr != nil {
+					res.Add("live_outcome_error", 1)
+				}
+				os.WriteFile(pathB, orig, 0644)
+			}
+			core.Safe(func() { udb.Close() })
+		}
+		os.RemoveAll(udir)
 	}
 	// header-targeted faults: every bit of the length and type fields of seed-chosen
 	// chunks, preferring block-filling chunks of multi-block records
